@@ -115,6 +115,50 @@ MUTANTS = [
     ('proxy-eq-by-name', 'C19', TS,
      "        return self.thread is other.thread",
      "        return self.thread.name == other.thread.name"),
+    ('delete-all-bytecode', 'C15', F,
+     "if file[-4:] in compiled_suffixes and file[:-1] not in files:",
+     "if file[-4:] in compiled_suffixes:"),
+    ('recurse-into-pycache', 'C15', F,
+     "                dirs.remove('__pycache__')", "                pass"),
+    ('suffix-without-dot', 'C15', F,
+     "if file[-4:] in compiled_suffixes and file[:-1] not in files:",
+     "if file[-3:] in ('pyc', 'pyo') and file[:-1] not in files:"),
+    ('usecompiled-does-not-keep', 'C15', 'src/zope/testrunner/options.py',
+     "        options.keepbytecode = options.usecompiled", "        pass"),
+    ('only-first-root-cleaned', 'C15', F,
+     "    for (p, _) in options.test_path:\n        for dirname, dirs, files in walk_with_symlinks(options, p):\n            if '__pycache__' in dirs:",
+     "    for (p, _) in options.test_path[:1]:\n        for dirname, dirs, files in walk_with_symlinks(options, p):\n            if '__pycache__' in dirs:"),
+    ('walk-not-sorted', 'C14', F,
+     "        dirs.sort()\n        files.sort()\n", "        pass\n"),
+    ('winners-not-sorted', 'C14', F,
+     "            winners = sorted(root2ext.values())", "            winners = list(root2ext.values())"),
+    ('no-dedup-of-overlapping-paths', 'C14', F,
+     "        if f not in found:\n            found[f] = 1\n            yield f, package",
+     "        if True:\n            yield f, package"),
+    ('non-identifier-dirs-searched', 'C14', F,
+     "                d for d in dirs if identifier(d) and d not in IGNORE_FOLDERS",
+     "                d for d in dirs if d not in IGNORE_FOLDERS"),
+    ('module-filter-after-import', 'C14', F,
+     "                if accept is not None and not accept(module_name):\n                    continue\n\n                try:\n                    module = import_name(module_name)",
+     "                try:\n                    module = import_name(module_name)\n                    if accept is not None and not accept(module_name):\n                        break"),
+    ('tests-package-without-init', 'C14', F,
+     "            if tests_pattern(d) and contains_init_py(options, files):",
+     "            if tests_pattern(d):"),
+    ('layers-not-sorted', 'C10', R,
+     "    layers = sorted(layers, key=layer_sort_key, reverse=True)\n",
+     "    layers = list(layers)\n"),
+    ('sort-by-address', 'C10', R,
+     "    layers = sorted(layers, key=layer_sort_key, reverse=True)\n",
+     "    layers = sorted(layers, key=id, reverse=True)\n"),
+    ('sort-by-name-hash', 'C10', R,
+     "    layers = sorted(layers, key=layer_sort_key, reverse=True)\n",
+     "    layers = sorted(layers, key=lambda ly: hash(name_from_layer(ly)), reverse=True)\n"),
+    ('unit-layer-sorted-like-others', 'C10', R,
+     "        return tuple(name_from_layer(ly) for ly in key if ly != UnitTests)",
+     "        return tuple(name_from_layer(ly) for ly in key)"),
+    ('gathered-not-reversed', 'C10', R,
+     "        gather_layers(layer, gathered)\n    gathered.reverse()",
+     "        gather_layers(layer, gathered)"),
     ('stop-only-on-errors', 'C16', R,
      "            failure_or_error = None\n", "            failure_or_error = None\n"),
 ]
